@@ -3,6 +3,9 @@ package main
 import (
 	"fmt"
 	"os"
+	"runtime"
+	"runtime/debug"
+	"runtime/pprof"
 	"sort"
 
 	"verif/internal/checks"
@@ -32,8 +35,29 @@ func main() {
 		fmt.Println("unknown check", id)
 		usage()
 	}
+	if os.Getenv("GOGC") == "" {
+		// the explorers hold large pointer-dense tables (bus segment tables) and allocate briskly;
+		// in this sandbox fresh pages are expensive, so a small heap that is reused beats a large one
+		debug.SetGCPercent(25)
+	}
+	if f := os.Getenv("VERIF_MEMPROF"); f != "" {
+		runtime.MemProfileRate = 4096
+		defer func() {}()
+	}
+	if f := os.Getenv("VERIF_CPUPROF"); f != "" {
+		if fh, err := os.Create(f); err == nil {
+			pprof.StartCPUProfile(fh)
+			report.AtExit = append(report.AtExit, pprof.StopCPUProfile)
+		}
+	}
 	r := report.New(id, tier, c.Level)
 	c.Run(r)
+	if f := os.Getenv("VERIF_MEMPROF"); f != "" {
+		if fh, err := os.Create(f); err == nil {
+			pprof.Lookup("allocs").WriteTo(fh, 0)
+			fh.Close()
+		}
+	}
 	r.Finish()
 }
 
